@@ -130,6 +130,16 @@ pub(super) fn verify_nsec3(
             return nsec3_yield(Proof::Bogus, query, "record name is not in the zone");
         }
 
+        // Without a SOA record the zone is not known, but a zone can only deny names at or below
+        // its apex: NSEC3 records of a zone that does not enclose the query name prove nothing.
+        if soa.is_none() && !base.zone_of(&query.name) {
+            return nsec3_yield(
+                Proof::Bogus,
+                query,
+                "record is from a zone that does not enclose the query name",
+            );
+        }
+
         let Ok(base32_hashed_name) = Label::from_raw_bytes(base32_hashed_name) else {
             return nsec3_yield(Proof::Bogus, query, "base32-hashed name is invalid");
         };
